@@ -1,8 +1,9 @@
 (* Extract/C12.v — extraction for the C12 oracle: the state/trie model that predicts the content of every
-   committed root, and the store model's functions (ExtrOcamlBasic only). *)
+   committed root, and the store model's functions, among them trie.go on working tries (Store/WorkTrie.v)
+   (ExtrOcamlBasic only). *)
 Require Extraction.
 Require Import ExtrOcamlBasic.
-From Verif Require Import Trie.Model State.StackedMap State.Model Store.Model.
+From Verif Require Import Trie.Model State.StackedMap State.Model Store.Model Store.WorkTrie.
 Extraction Language OCaml.
 Extraction "../oracle/c12/model.ml"
   trie_get trie_update walk leaves never
@@ -10,4 +11,5 @@ Extraction "../oracle/c12/model.ml"
   get_balance get_energy get_master get_codehash get_code get_raw_storage exists_
   mkAcc mkMeta
   sget commit checkpoint delete_history open_root
-  iter_nodes checkpoint_nodes reach_list link_check prune_round deleted_keys dptn.
+  iter_nodes checkpoint_nodes reach_list link_check prune_round deleted_keys dptn
+  wt_get wt_update wt_run wt_commit dirty_paths.
